@@ -9,5 +9,9 @@ TraceNodes ==
 \* length-4 programs: a smaller library (every failure kind still present) and two contexts
 Trace4Nodes == { N0("Src0"), N0("MulDef"), NK("Probe", "factor", ""), N0("Boom"), N0("Abort"),
                  WithBogus(N0("Sq")), N0("Sum") }
+\* several GENERATED classes of one factory in one pipeline (two slicers, two sweeps of one kind: they share a qualified name)
+TraceSliceNodes == { NS("SweepSrc", <<1, 2>>), NS("SweepSrc", <<3>>), NC("SliceMul", "factor", 4), N0("SliceMulDef"), N0("SliceMul"),
+                     NS("SweepMul", <<2, 3>>), NK("SliceProbe", "factor", ""), N0("Sum") }
+OnlyNoData == {NoData}
 TinyCtxs == {[k \in Keys |-> Absent], [k \in Keys |-> IF k = "factor" THEN Num(3) ELSE Absent]}
 =============================================================================
